@@ -188,22 +188,31 @@ func VerifReloadGate(use int) {
 }
 
 func init() {
-	verifHarnesses["VerifFRRK8sDebouncer"] = func(a []int) { VerifFRRK8sDebouncer(a[0]) }
+	verifHarnesses["VerifFRRK8sDebouncer"] = func(a []int) { VerifFRRK8sDebouncer(a[0], a[1]) }
 }
 
 // VerifFRRK8sDebouncer (C19, frr-k8s variant): every "configuration changed" signal is eventually
 // followed by a reload event, signals within the debounce window are coalesced (at most one event per
 // expiry), and the signalling side is never blocked indefinitely. The reload events are consumed by
-// a separate goroutine, as controller-runtime's channel source does.
-func VerifFRRK8sDebouncer(steps int) {
+// a separate goroutine, as controller-runtime's channel source does. busy=1: that consumer is not always
+// at the channel - it picks up one event each time the environment lets it (it is starting, or still
+// distributing the previous event); signals are then submitted by goroutines of their own.
+func VerifFRRK8sDebouncer(steps, busy int) {
 	in := make(chan struct{})
 	out := make(chan event.GenericEvent)
 	debouncer(in, out, vr.TimerDuration)
 	var mu sync.Mutex
 	signalsSinceEvent := 0
 	events := 0
+	gate := make(chan struct{}, steps+8)
 	go func() {
-		for range out {
+		for {
+			if busy == 1 {
+				<-gate
+			}
+			if _, ok := <-out; !ok {
+				return
+			}
 			mu.Lock()
 			events++
 			signalsSinceEvent = 0
@@ -212,26 +221,38 @@ func VerifFRRK8sDebouncer(steps int) {
 	}()
 	expiries := 0
 	for i := 0; i < steps; i++ {
-		if vr.Bool() { // the desired configuration changed
-			in <- struct{}{}
+		switch vr.Choose(2 + busy) {
+		case 0: // the desired configuration changed
+			if busy == 1 {
+				go func() { in <- struct{}{} }()
+			} else {
+				in <- struct{}{}
+			}
 			mu.Lock()
 			signalsSinceEvent++
 			mu.Unlock()
 			vr.Yield()
-		} else { // the debounce timer expires
+		case 1: // the debounce timer expires
 			vr.Assume(vr.TimerPending())
 			vr.FireTimer()
 			expiries++
 			vr.Yield()
+		case 2: // the consumer comes back to the channel for one event
+			gate <- struct{}{}
+			vr.Yield()
 		}
 	}
-	for k := 0; k < 2; k++ {
+	for k := 0; k < 2+busy; k++ {
+		if busy == 1 {
+			gate <- struct{}{}
+			vr.Yield()
+		}
 		vr.FireTimer()
 		vr.Yield()
 	}
 	mu.Lock()
 	vr.Assert(signalsSinceEvent == 0, "a configuration change was never followed by a reload event")
-	vr.Assert(events <= expiries+2, "more reload events than timer expiries: changes were not coalesced")
+	vr.Assert(events <= expiries+2+busy, "more reload events than timer expiries: changes were not coalesced")
 	mu.Unlock()
 	vr.Reach("frr-k8s debouncer settled")
 }
